@@ -2,6 +2,7 @@ package service
 
 import (
 	gocontext "context"
+	"github.com/orda-io/orda/client/pkg/errors"
 	"github.com/orda-io/orda/client/pkg/iface"
 	"github.com/orda-io/orda/client/pkg/log"
 	"github.com/orda-io/orda/client/pkg/model"
@@ -29,6 +30,10 @@ func (its *OrdaService) TestEncodingOperation(
 		log.Logger.Infof("Returns %v, %v", ret, er)
 	}()
 	decodedOp := its.decodeModelOp(in.Op)
+	if decodedOp == nil {
+		// the operation cannot be decoded (unknown type, body that is not JSON): there is nothing to echo.
+		return nil, errors.NewRPCError(errors.ServerBadRequest.New(log.Logger, "cannot decode the operation"))
+	}
 	switch cast := decodedOp.(type) {
 	case *operations.SnapshotOperation:
 		return its.testEncodingSnapshotOperation(goCtx, in.Type, cast)
@@ -120,7 +125,10 @@ func (its *OrdaService) testEncodingSnapshotOperation(
 	error,
 ) {
 	client := orda.NewClient(orda.NewLocalClientConfig("ENCODING"), "orda-encoding-tester")
-	datatype := client.CreateDatatype("Testing", typeOf, nil).(iface.Datatype)
+	datatype, ok := client.CreateDatatype("Testing", typeOf, nil).(iface.Datatype)
+	if !ok {
+		return nil, errors.NewRPCError(errors.ServerBadRequest.New(log.Logger, "unknown type of datatype"))
+	}
 
 	if _, err := datatype.ExecuteRemote(sOp); err != nil {
 		return nil, err
